@@ -775,7 +775,7 @@ def rule_sep2(chk, cx):
 
 
 # ----------------------------------------------------------------------------------------------------------
-def analyse(chk):
+def _analyse_own(chk):
     chk.rule("pair", "backward code multiplies vfeat by the nspin power the forward code applied to the feature row")
     chk.rule("amp", "nspin exponent of a quantity equals its density-amplitude degree")
     chk.rule("expnt", "exponent functions: nspin=2 branch == nspin=1 branch at the spin-doubled density, term by term")
@@ -810,6 +810,12 @@ def analyse(chk):
     chk.not_decided += ["equality of energies/potentials between nr_rks and nr_uks (numerical)",
                         "nspin handling inside C (model_utils.c) and in the NPOL mean / force_polarize paths",
                         "numeric prefactors other than powers of nspin / 2"]
+
+
+def analyse(chk):
+    _analyse_own(chk)
+    chk.guard(lambda c_: core.include_findings(c_, 'C10', files=['ciderpress/lib/mod_cider/model_utils.c'], rules=None,
+                                               why='a data race in the spin kernels breaks the spin relations'))
 
 
 def mutants(tree):
